@@ -49,7 +49,8 @@ TEXT = {
             'a terminated line is rejected for length iff line+CRLF > BUF, an unterminated one iff BUF bytes arrived; carried to '
             'every segmentation of the implementation model by the C01 refinement. Server-side clauses: through HttpServer::requests one IN '
             'event equals the specification parser on carry ++ bytes read with the connection\'s limit (fixed at accept time), the '
-            '400 for SizeLimitExceeded is queued on that connection and its body names both numbers (proved); also compared byte '
+            '400 for SizeLimitExceeded is queued on that connection, its body names both numbers, and polling while ready delivers it '
+            'to that client (proved end to end for clients that keep their connections open); also compared byte '
             'for byte on real sockets. Tie: BUFFER_SIZE/MAX_PAYLOAD_SIZE '
             'literals; differential run at L in the property\'s set with the stream cut right after the header terminator and '
             'line lengths 1000..1100 at varying offsets; the iff is also evaluated on the implementation alone.',
@@ -71,8 +72,9 @@ TEXT = {
             'stream the interim responses are in order those of delivered requests with body and expect flag plus the one whose '
             'body is awaited; carried to the implementation model\'s response queue for every schedule by C01. Server-level '
             'clause: through HttpServer::requests the interim responses queued by a read are exactly those of the specification '
-            'parser, appended to that connection\'s unsent output, and (C08 progress, clients keeping connections open) delivered '
-            'after finitely many polls without the body being sent; also checked on real sockets (Expect head alone / after a '
+            'parser, appended to that connection\'s unsent output wherever the event stands in the batch, and (end-to-end theorem, '
+            'clients keeping connections open) polling while ready terminates with exactly those interim responses delivered to '
+            'that client, without the body being sent; also checked on real sockets (Expect head alone / after a '
             'complete request in the same segment / with its body).',
             'DESIGN.md section 5 C13', 'Coq proof (iff + run invariant) + differential run with output flushed between header block and body'),
     'C02': ('Coq theorems: a request line is accepted iff it is METHOD SP URI SP VERSION with table METHOD/VERSION and a '
